@@ -206,6 +206,7 @@ impl StringGenerator {
             state.is_underlined = false;
             state.is_double_underlined = false;
             state.is_crossed_out = false;
+            state.is_concealed = false;
 
             state.fg_idx = 7;
             state.fg = DOS_DEFAULT_PALETTE[7].clone();
@@ -242,7 +243,7 @@ impl StringGenerator {
 
         if is_concealed && !state.is_concealed {
             sgr.push(8);
-            state.is_blink = true;
+            state.is_concealed = true;
         }
 
         if is_crossed_out && !state.is_crossed_out {
